@@ -215,7 +215,12 @@ Definition arm_replies (c : cmd) : list string :=
   | CEbdQ => [lit sh_fn_writes "__ebd_exec_main" 0]
   | _ => flat_map (fun a : arm => if cmd_eqb (arm_tok a) c then snd a else []) (sh_main_arms ++ sh_phase_arms)
   end.
-Definition ack_ok (c : cmd) : bool := mem (py_want c) (arm_replies c).
+(* every arm that is dispatched for c (main loop and phase loop both list `alive`) must be able to
+   write the reply python expects *)
+Definition ack_ok (c : cmd) : bool :=
+  mem (py_want c) (arm_replies c)
+  && forallb (fun a : arm => implb (cmd_eqb (arm_tok a) c) (mem (py_want c) (snd a)))
+             (sh_main_arms ++ sh_phase_arms).
 
 (* requests and notices: the literal the daemon writes, and whether python takes it as that *)
 Definition sh_lit (r : rep) : string :=
